@@ -1,5 +1,5 @@
 (** C05 — proofs about Dom/HydrateModel.v. *)
-From Coq Require Import List NArith Bool Lia Arith.
+From Coq Require Import List NArith Bool Lia Arith Sorted.
 From LV Require Import Base.Bytes Dom.HydrateModel.
 Import ListNotations.
 Open Scope N_scope.
@@ -1475,4 +1475,153 @@ Proof.
   - rewrite dom_hyd_keyed, dom_of_keyed. cbn [fst snd]. destruct (Hseq vs IH pos) as [A _].
     now rewrite !skeleton_forest_app, A.
   - split; reflexivity.
+Qed.
+
+(** ** the bound nodes are listed in document order *)
+Fixpoint lex_lt (a b : list nat) : Prop :=
+  match a, b with
+  | [], _ :: _ => True
+  | x :: a', y :: b' => (x < y)%nat \/ (x = y /\ lex_lt a' b')
+  | _, [] => False
+  end.
+(** document (pre-)order on node paths; paths are innermost-index-first *)
+Definition doc_lt (p q : path) : Prop := lex_lt (rev p) (rev q).
+
+(** [p] lies in the subtree of child number [j] of [par], for some [lo <= j < hi] *)
+Definition under (par : path) (lo hi : nat) (p : path) : Prop :=
+  exists q j, p = q ++ j :: par /\ (lo <= j < hi)%nat.
+
+Lemma lex_lt_prefix c a b : lex_lt a b -> lex_lt (c ++ a) (c ++ b).
+Proof. induction c as [|x c IH]; intro H; [exact H|]. cbn. right. auto. Qed.
+
+Lemma doc_lt_under par lo1 hi1 lo2 hi2 p q :
+  under par lo1 hi1 p -> under par lo2 hi2 q -> (hi1 <= lo2)%nat -> doc_lt p q.
+Proof.
+  intros (q1 & j1 & -> & H1) (q2 & j2 & -> & H2) Hle. unfold doc_lt.
+  rewrite !rev_app_distr. cbn [rev]. rewrite <- !app_assoc. apply lex_lt_prefix. cbn. left. lia.
+Qed.
+
+Lemma doc_lt_child par idx lo hi p : under (idx :: par) lo hi p -> doc_lt (idx :: par) p.
+Proof.
+  intros (q & j & -> & _). unfold doc_lt. rewrite rev_app_distr. cbn [rev].
+  rewrite <- !app_assoc. apply lex_lt_prefix. cbn. right. split; [reflexivity|]. exact I.
+Qed.
+
+Lemma under_weaken par lo hi lo' hi' p :
+  under par lo hi p -> (lo' <= lo)%nat -> (hi <= hi')%nat -> under par lo' hi' p.
+Proof. intros (q & j & E & H) A B. exists q, j. split; [exact E|lia]. Qed.
+
+Lemma under_deeper par idx lo hi p lo' hi' :
+  under (idx :: par) lo hi p -> (lo' <= idx < hi')%nat -> under par lo' hi' p.
+Proof.
+  intros (q & j & -> & _) H. exists (q ++ [j]), idx. split; [now rewrite <- app_assoc|exact H].
+Qed.
+
+Lemma under_self par idx lo hi : (lo <= idx < hi)%nat -> under par lo hi (idx :: par).
+Proof. intro H. exists [], idx. auto. Qed.
+
+Lemma sorted_app {A} (R : A -> A -> Prop) l1 l2 :
+  StronglySorted R l1 -> StronglySorted R l2 ->
+  (forall a b, In a l1 -> In b l2 -> R a b) -> StronglySorted R (l1 ++ l2).
+Proof.
+  intros H1 H2 H. induction H1 as [|a l1 Hs IH Hf]; [exact H2|].
+  cbn [app]. constructor.
+  - apply IH. intros x y Hx Hy. apply H; [now right|exact Hy].
+  - apply Forall_app. split; [exact Hf|]. apply Forall_forall. intros y Hy. apply H; [now left|exact Hy].
+Qed.
+
+Lemma bound_elem_some n a l : bound (SElem n a (Some l)) = n :: bound_seq l.
+Proof. reflexivity. Qed.
+Lemma bound_sseq l : bound (SSeq l) = bound_seq l.
+Proof. reflexivity. Qed.
+Lemma bound_svec l m : bound (SVec l m) = bound_seq l ++ [m].
+Proof. reflexivity. Qed.
+Lemma bound_skeyed p l m : bound (SKeyed p l m) = bound_seq l ++ [m].
+Proof. reflexivity. Qed.
+
+Definition order_spec (v : view) : Prop :=
+  forall pos par idx,
+    let l := bound (st_of v pos par idx) in
+    let n := length (fst (dom_of v pos)) in
+    Forall (under par idx (idx + n)) l /\ StronglySorted doc_lt l.
+
+Lemma order_seq vs : Forall order_spec vs ->
+  forall pos par idx,
+    let l := bound_seq (st_seq vs pos par idx) in
+    let n := length (fst (dom_seq vs pos)) in
+    Forall (under par idx (idx + n)) l /\ StronglySorted doc_lt l.
+Proof.
+  intro IH. induction IH as [|v vs Hv _ IHvs]; intros pos par idx; cbv zeta.
+  - cbn. split; constructor.
+  - cbn [st_seq bound_seq dom_seq].
+    destruct (Hv pos par idx) as [A1 B1]. cbv zeta in A1, B1.
+    destruct (dom_of v pos) as [x1 p1] eqn:E1. cbn [fst snd] in *.
+    destruct (IHvs p1 par (idx + length x1)%nat) as [A2 B2]. cbv zeta in A2, B2.
+    destruct (dom_seq vs p1) as [x2 p2] eqn:E2. cbn [fst snd] in *. rewrite app_length.
+    split.
+    + apply Forall_app. split.
+      * eapply Forall_impl; [|exact A1]. intros p Hp. eapply under_weaken; [exact Hp|lia|lia].
+      * eapply Forall_impl; [|exact A2]. intros p Hp. eapply under_weaken; [exact Hp|lia|lia].
+    + apply sorted_app; [exact B1|exact B2|].
+      intros a b Ha Hb. rewrite Forall_forall in A1, A2.
+      eapply doc_lt_under; [apply (A1 a Ha)|apply (A2 b Hb)|lia].
+Qed.
+
+Lemma dom_of_nonempty_text s pos : (1 <= length (fst (dom_of (VText s) pos)))%nat.
+Proof. cbn. destruct (pos_eqb pos NextChildAfterText); cbn; lia. Qed.
+
+Lemma order_all v : order_spec v.
+Proof.
+  induction v as [s| |n a ks IH|n a|vs IH|v IH| |v IH|v IH|vs IH|v IH|vs IH|e] using view_ind';
+    intros pos par idx; cbv zeta.
+  - cbn [st_of bound dom_of fst]. split.
+    + constructor; [|constructor]. destruct (pos_eqb pos NextChildAfterText); cbn [app length].
+      * replace (S idx) with (idx + 1)%nat by lia. apply under_self. lia.
+      * apply under_self. lia.
+    + constructor; constructor.
+  - cbn. split; [constructor; [apply under_self; lia|constructor]|constructor; constructor].
+  - rewrite st_of_elem, dom_of_elem. cbn [fst length].
+    destruct ks as [|k ks].
+    + cbn. split; [constructor; [apply under_self; lia|constructor]|constructor; constructor].
+    + rewrite bound_elem_some.
+      destruct (order_seq (k :: ks) IH FirstChild (idx :: par) 0%nat) as [A B]. cbv zeta in A, B.
+      split.
+      * constructor; [apply under_self; lia|].
+        eapply Forall_impl; [|exact A]. intros p Hp. eapply under_deeper; [exact Hp|lia].
+      * constructor; [exact B|]. eapply Forall_impl; [|exact A]. intros p Hp. eapply doc_lt_child. exact Hp.
+  - cbn. split; [constructor; [apply under_self; lia|constructor]|constructor; constructor].
+  - rewrite st_of_tuple, dom_of_tuple, bound_sseq. apply (order_seq vs IH).
+  - apply IH.
+  - cbn. split; [constructor; [apply under_self; lia|constructor]|constructor; constructor].
+  - apply IH.
+  - apply IH.
+  - rewrite st_of_vec, dom_of_vec, bound_svec. cbn [fst]. rewrite app_length. cbn [length].
+    destruct (order_seq vs IH pos par idx) as [A B]. cbv zeta in A, B. split.
+    + apply Forall_app. split.
+      * eapply Forall_impl; [|exact A]. intros p Hp. eapply under_weaken; [exact Hp|lia|lia].
+      * constructor; [apply under_self; lia|constructor].
+    + apply sorted_app; [exact B|constructor; constructor|].
+      intros a b Ha [<-|[]]. rewrite Forall_forall in A.
+      eapply doc_lt_under; [apply (A a Ha)|apply (under_self par (idx + length (fst (dom_seq vs pos))) (idx + length (fst (dom_seq vs pos))) (S (idx + length (fst (dom_seq vs pos))))); lia|lia].
+  - apply IH.
+  - rewrite st_of_keyed, dom_of_keyed, bound_skeyed. cbn [fst]. rewrite app_length. cbn [length].
+    destruct (order_seq vs IH pos par idx) as [A B]. cbv zeta in A, B. split.
+    + apply Forall_app. split.
+      * eapply Forall_impl; [|exact A]. intros p Hp. eapply under_weaken; [exact Hp|lia|lia].
+      * constructor; [apply under_self; lia|constructor].
+    + apply sorted_app; [exact B|constructor; constructor|].
+      intros a b Ha [<-|[]]. rewrite Forall_forall in A.
+      eapply doc_lt_under; [apply (A a Ha)|apply (under_self par (idx + length (fst (dom_seq vs pos))) (idx + length (fst (dom_seq vs pos))) (S (idx + length (fst (dom_seq vs pos))))); lia|lia].
+  - cbn. split; [constructor; [apply under_self; lia|constructor]|constructor; constructor].
+Qed.
+
+(** the nodes hydration binds are pairwise distinct nodes below the root, listed in document order *)
+Theorem hydrate_binds_in_order v root st h :
+  wf false v = true -> hydrate_parsed v = Some (root, st, h) ->
+  st = st_of v FirstChild [] 0 /\
+  StronglySorted doc_lt (bound st) /\
+  Forall (under [] 0 (length (fst (dom_of v FirstChild)))) (bound st).
+Proof.
+  intros Hwf H. destruct (hydrate_binds_positionally v root st h Hwf H) as [_ ->].
+  destruct (order_all v FirstChild [] 0%nat) as [A B]. cbv zeta in A, B. auto.
 Qed.
